@@ -17,6 +17,82 @@ type CaseStream struct {
 	Reuse bool     `json:"reuse,omitempty"` // successive messages of one type are decoded into the same receiver object
 	Loose bool     `json:"loose,omitempty"` // items are arbitrary encodable values (over-long text, all-pad text ...): the decoded value is compared with the interpreter's reading of the bytes the encoder produced
 	Chunk []int    `json:"chunk,omitempty"` // per item: if > 0, the receiver is first offered only the first Chunk[i] mod len bytes of the item (a partial segment), which fails; then the whole stream continues
+	// Refused: before item At, the sender tries to put another message into the same buffer, the encoder refuses it
+	// half-way (unregistered application id with the extension left out; a list one entry beyond its count prefix) and
+	// the sender drops whatever the attempt wrote (bytes.Buffer.Truncate). The stream must be unaffected.
+	Refused []RefusedAt `json:"refused,omitempty"`
+}
+
+type RefusedAt struct {
+	At  int         `json:"at"`
+	V   *Value      `json:"v,omitempty"`   // small refused value
+	Big *CaseC18Msg `json:"big,omitempty"` // or: a message with one field blown up beyond its prefix (built on demand)
+}
+
+var refusedTargets = map[string][]CaseC18Msg{}
+
+// refusedBigTargets: every 16-bit-prefixed field reachable from the module's frame, one entry beyond its maximum.
+func refusedBigTargets(module string) []CaseC18Msg {
+	if t, ok := refusedTargets[module]; ok {
+		return t
+	}
+	var out []CaseC18Msg
+	fr := frameOf(module)
+	fts := Types[fr]
+	nkeys := len(TableOf(fts, &fts.Fields[fts.DynIndex()]).Order)
+	seen := map[string]bool{}
+	for k := 0; k < nkeys; k++ {
+		var targets []c18Target
+		sk := Skeleton(fr, k)
+		c18Targets(sk, nil, &targets, 0)
+		for _, tg := range targets {
+			id := sk.F[fts.DynIndex()].O.Type + fmt.Sprint(tg.path[min(1, len(tg.path)):], tg.field, tg.inner)
+			if NSize(tg.ptype) != 2 || len(tg.path) == 0 || seen[id] {
+				continue
+			}
+			seen[id] = true
+			out = append(out, CaseC18Msg{Type: fr, Key: k, Path: tg.path, Field: tg.field, Inner: tg.inner, N: int(NMask(tg.ptype)) + 1})
+		}
+	}
+	refusedTargets[module] = out
+	return out
+}
+
+// genRefused draws a message of the module that its encoder refuses after having written part of it.
+func genRefused(rt *rapid.T, module string) (RefusedAt, bool) {
+	var tbs []*Table
+	for _, tb := range TableList {
+		if tb.Module == module && !Types[holderOf(tb)].IsFrame() {
+			tbs = append(tbs, tb)
+		}
+	}
+	big := refusedBigTargets(module)
+	if len(tbs) == 0 && len(big) == 0 {
+		return RefusedAt{}, false
+	}
+	if len(tbs) == 0 || len(big) > 0 && rapid.IntRange(0, 3).Draw(rt, "refusedbig") == 0 {
+		b := big[rapid.IntRange(0, len(big)-1).Draw(rt, "bigtarget")]
+		return RefusedAt{Big: &b}, true
+	}
+	tb := tbs[rapid.IntRange(0, len(tbs)-1).Draw(rt, "rtable")]
+	holder := holderOf(tb)
+	hts := Types[holder]
+	g := &gen{rt: rt, feat: &Features{}, mult: 1}
+	key := g.unregisteredKey("rkey", tb, &hts.Fields[hts.FieldIndex(hts.Fields[hts.DynIndex()].Disc)])
+	hv := holderWithKeyRT(rt, tb, key, false, "")
+	if rapid.Bool().Draw(rt, "inframe") {
+		fr := frameOf(module)
+		fts := Types[fr]
+		ftb := TableOf(fts, &fts.Fields[fts.DynIndex()])
+		for _, fk := range ftb.Order {
+			if ftb.TypeFor(fk) == holder {
+				fv, _ := GenValue(rt, fr, GenOpts{Mode: Canonical, MaxList: 20, ForceKey: fk})
+				fv.F[fts.DynIndex()].O = hv
+				return RefusedAt{V: fv}, true
+			}
+		}
+	}
+	return RefusedAt{V: hv}, true
 }
 
 func oracleC07(c *CaseStream) *Failure {
@@ -24,6 +100,27 @@ func oracleC07(c *CaseStream) *Failure {
 	buf := &bytes.Buffer{}
 	ends := make([]int, len(c.Items))
 	for i, v := range c.Items {
+		for _, r := range c.Refused {
+			if r.At != i {
+				continue
+			}
+			rv := r.V
+			if r.Big != nil {
+				rv, _, _ = c18Build(r.Big)
+			}
+			if rv == nil {
+				continue
+			}
+			prev := buf.Len()
+			rerr, rpan, _ := safely(func() error { return EncodeAny(ToStruct(rv), buf) })
+			if rpan != nil {
+				return nil // C17's business
+			}
+			if rerr == nil {
+				Col.Class("refused-candidate-was-accepted(dropped by the sender all the same)", 1)
+			}
+			buf.Truncate(prev) // the sender drops the attempt
+		}
 		err, pan, _ := safely(func() error { return EncodeAny(ToStruct(v), buf) })
 		if err != nil || pan != nil {
 			if c.Loose && pan == nil {
@@ -344,6 +441,17 @@ func rpC07(types []string, all bool) (out []RProp) {
 			}
 			nt := n >= 2 && len(kinds) >= 2
 			cls := []string{"stream:" + m, fmt.Sprintf("stream-len:%d", min(n, 10)/5*5)}
+			if rapid.IntRange(0, 2).Draw(rt, "withrefused") == 0 {
+				for k := rapid.IntRange(1, 2).Draw(rt, "nrefused"); k > 0; k-- {
+					if r, ok := genRefused(rt, m); ok {
+						r.At = rapid.IntRange(0, n-1).Draw(rt, "refusedat")
+						c.Refused = append(c.Refused, r)
+					}
+				}
+				if len(c.Refused) > 0 {
+					cls = append(cls, "sender-drops-a-refused-message-between-frames")
+				}
+			}
 			if c.Reuse {
 				cls = append(cls, "frame-stream-into-one-reused-frame-object")
 			}
